@@ -210,7 +210,15 @@ Definition step_opt (e : ep) (a : act) : option ep :=
   | USendData p first last n =>
       match lookup p (handles e), remote_of e p with
       | Some h, Some rp =>
-          match h_tx h with Alive => Some (e <| chq := chq e ++ [ESendData rp first last n] |>) | _ => None end
+          match h_tx h, lookup p (ports (mx e)) with
+          | Alive, Some (Connected c) =>
+              (* [try_request] fails once the pool is closed *)
+              match pool_closed c with
+              | None => Some (e <| chq := chq e ++ [ESendData rp first last n] |>)
+              | Some _ => None
+              end
+          | _, _ => None
+          end
       | _, _ => None
       end
   | UConsume p =>
@@ -317,7 +325,10 @@ Definition step_opt (e : ep) (a : act) : option ep :=
   | DGoodbye =>
       if negb (goodbye_sent (mx e)) && (should_terminate (mx e) || terminate_req e)
       then Some (finish e (handle_event (mx e) EGoodbye)) else None
-  | Recv m paylen => Some (finish e (handle_received (mx e) m paylen))
+  | Recv m paylen =>
+      (* a listener queue whose receiving end is gone is closed: [try_send] reports Closed, never Full *)
+      let m0 := if listener_alive e then mx e else mx e <| lq_wait := 0 |> <| lq_nowait := 0 |> in
+      Some (finish (e <| mx := m0 |>) (handle_received m0 m paylen))
   end.
 
 Definition step (e : ep) (a : act) : ep := match step_opt e a with Some e' => e' | None => e end.
